@@ -64,4 +64,5 @@ b33e5d2 C15
 b2f388a C19
 9df52d6 C05
 7cc02bb C01
+b420852 C13
 LIST
